@@ -1,0 +1,54 @@
+//go:build verif
+// +build verif
+
+package pbft
+
+// Trace hooks of the model-based checks in /verif (build tag "verif").
+// handleMsg / handleTimeout call them through a defer registered after the mutex defer, so the event is
+// emitted after the state change and while cs.mtx is still held (the linearisation point of the handler).
+
+import "sync/atomic"
+
+// VerifEvent is one handled input of receiveRoutine with the round state after it.
+type VerifEvent struct {
+	Seq     uint64
+	Kind    string // "msg" | "timeout"
+	Msg     ConsensusMessage
+	PeerKey string
+	Timeout VerifTimeout
+	Post    VerifRoundState
+}
+
+var (
+	verifSeq uint64
+	// VerifTraceFn receives every event; installed by a test driver. Called under cs.mtx: must not call back into cs.
+	VerifTraceFn atomic.Value // func(cs *ConsensusState, ev VerifEvent)
+	// VerifTraceMaxRound bounds the rounds included in the projection.
+	VerifTraceMaxRound int64 = 3
+)
+
+func verifNop() {}
+
+func verifEmit(cs *ConsensusState, ev VerifEvent) {
+	fn, _ := VerifTraceFn.Load().(func(cs *ConsensusState, ev VerifEvent))
+	if fn == nil {
+		return
+	}
+	ev.Seq = atomic.AddUint64(&verifSeq, 1)
+	ev.Post = cs.verifProjectNoLock(VerifTraceMaxRound)
+	fn(cs, ev)
+}
+
+func verifTraceMsg(cs *ConsensusState, mi msgInfo) func() {
+	if VerifTraceFn.Load() == nil {
+		return verifNop
+	}
+	return func() { verifEmit(cs, VerifEvent{Kind: "msg", Msg: mi.Msg, PeerKey: mi.PeerKey}) }
+}
+
+func verifTraceTimeout(cs *ConsensusState, ti timeoutInfo) func() {
+	if VerifTraceFn.Load() == nil {
+		return verifNop
+	}
+	return func() { verifEmit(cs, VerifEvent{Kind: "timeout", Timeout: verifTimeout(ti)}) }
+}
